@@ -27,12 +27,24 @@ def generic_tags(prop, pred, reset, ev):
             t.add("var0")
         if isinstance(a, list) and any(v["ty"] == "B" for v in pre["v"] if v["id"] in a):
             t.add("arg_is_boundary")
+    if reset and reset.get("k") == "pair":
+        def bb(g, which):
+            bs = set(g[which])
+            return any(e["u"] in bs and e["w"] in bs for e in g["e"])
+        if bb(reset["h"], "ins"):
+            t.add("cap_in_other")
+        if bb(reset["g"], "outs"):
+            t.add("cup_in_self")
+    if reset and reset.get("k") == "circ" and not reset["c"]["gates"]:
+        t.add("zero_gates")
+    if reset and "how" in reset:
+        t.add(f"how={reset['how']}")
     for x in ev.get("tags", []) if isinstance(ev.get("tags"), list) else []:
         t.add(str(x))
     return t
 
 
-def run_plan(prop, tier, seed, t0, mcs, traces, level, assumptions, rule, tagger=generic_tags, extra_cov=None):
+def run_plan(prop, tier, seed, t0, mcs, traces, level, assumptions, rule, tagger=generic_tags, extra_cov=None, extra_cov_fn=None):
     known = load_known()
     mc_results, tr_results = [], []
     nviol, nknown = 0, {}
@@ -60,7 +72,7 @@ def run_plan(prop, tier, seed, t0, mcs, traces, level, assumptions, rule, tagger
     stats_total = {}
     for tr in traces:
         prefix = os.path.join(WORK, prop, "tr_" + tr["name"])
-        summ = record(tr["engine"], prefix, tr.get("shards", NCPU), ["--seed", seed] + tr["args"], tr.get("rec_timeout", 3000))
+        summ = record(tr["engine"], prefix, tr.get("shards", 2 * NCPU), ["--seed", seed] + tr["args"], tr.get("rec_timeout", 3000))
         res = validate(prop, tr["module"], tr["cfg"], prefix, tr.get("timeout", 3000))
         groups += summ["groups"]
         events += summ["lines"]
@@ -113,6 +125,8 @@ def run_plan(prop, tier, seed, t0, mcs, traces, level, assumptions, rule, tagger
            "evaluations": events + transitions, "distinct_nontrivial": max(2, states + stats_total.get("nontrivial", groups))}
     if extra_cov:
         cov.update(extra_cov)
+    if extra_cov_fn:
+        cov.update(extra_cov_fn(stats_total, groups))
     write_evidence(prop, tier, seed, level, cov, assumptions, time.time() - t0, nviol)
     log(f"[{prop}] {tier}: {'OK' if nviol == 0 else str(nviol) + ' VIOLATIONS'} in {time.time() - t0:.0f}s "
         f"(MC states {states}, executions validated {groups}, L1 drift {drift_total})")
@@ -148,7 +162,153 @@ def plan_C04(prop, tier, seed, t0):
                     "each decided by Den(post) = Den(pre) in TLC")
 
 
-PLANS = {"C04": plan_C04}
+def plan_C01(prop, tier, seed, t0):
+    q = tier == "quick"
+    mcs = [dict(name="simp", module="MC_Simp.tla", cfg="MC_Simp_q.cfg" if q else "MC_Simp_t.cfg", timeout=900 if q else 5000),
+           dict(name="simp_live", module="MC_Simp.tla", cfg="MC_Simp_live_q.cfg" if q else "MC_Simp_live.cfg", timeout=1500 if q else 3000)]
+    T = dict(module="Trace_Simp.tla", cfg="Trace_Simp.cfg")
+    traces = [
+        dict(name="fam", engine="simp", args=["--fam", "k=3,tys=ZX,phs=0124,ets=NH,nb=1", "--fam", "k=2,tys=ZX,phs=01247,ets=NH,nb=2,bb=1",
+                                              "--stride", 16 if q else 1], **T),
+        dict(name="rand", engine="simp", args=["--random", 300 if q else 5000, "--rand", "maxsp=6,maxb=3"], **T),
+        dict(name="randgl", engine="simp", args=["--random", 300 if q else 5000, "--rand", "kind=gl,maxsp=6,maxb=3,gadgets=3"], **T),
+    ]
+    return run_plan(prop, tier, seed, t0, mcs, traces, "model_checking", COMMON_ASSUME,
+                    "MC: every firing order of the full_simp rule set (superset of every strategy) from every diagram of the family, "
+                    "Sound/NoPanic/StaysWF in every state, termination under weak fairness; TRACE: one execution = one diagram on which "
+                    "all 15 pub simplifiers ran in both backends under a 20 s watchdog; non-trivial = runs that changed the diagram, "
+                    "each decided by Den(post) = Den(pre) in TLC")
+
+
+def plan_C10(prop, tier, seed, t0):
+    q = tier == "quick"
+    mcs = [dict(name="rules_v", module="MC_Rules.tla", cfg="MC_Rules_v.cfg", timeout=1500),
+           dict(name="simp_v", module="MC_Simp.tla", cfg="MC_Simp_v.cfg", timeout=1500)]
+    if not q:
+        mcs.append(dict(name="rules_v3", module="MC_Rules.tla", cfg="MC_Rules_v3.cfg", timeout=5000))
+    R = dict(module="Trace_Rules.tla", cfg="Trace_Rules.cfg")
+    S = dict(module="Trace_Simp.tla", cfg="Trace_Simp.cfg")
+    C = dict(module="Trace_Circ.tla", cfg="Trace_Circ.cfg")
+    traces = [
+        dict(name="rules_fam", engine="rules", args=["--fam", "k=2,tys=ZX,phs=0146,ets=NH,nb=1,vars=01", "--fam", "k=3,tys=Z,phs=014,ets=H,nb=1,vars=0",
+                                                     "--stride", 8 if q else 1], **R),
+        dict(name="rules_rand", engine="rules", args=["--random", 150 if q else 4000, "--rand", "kind=gl,maxsp=4,maxb=2,phs=01246,vars=012,pvar=0.35,gadgets=1"], **R),
+        dict(name="rules_rand_zx", engine="rules", args=["--random", 150 if q else 3000, "--rand", "maxsp=4,maxb=2,vars=012,pvar=0.35"], **R),
+        dict(name="simp_rand", engine="simp", args=["--random", 250 if q else 4000, "--rand", "kind=gl,maxsp=6,maxb=2,phs=01246,vars=012,pvar=0.3,gadgets=3"], **S),
+        dict(name="simp_rand_zx", engine="simp", args=["--random", 150 if q else 3000, "--rand", "maxsp=5,maxb=2,vars=012,pvar=0.3"], **S),
+        dict(name="measure", engine="tograph", args=["--enum", "2,2,small", "--random", 150 if q else 2500, "--alphabet", "all", "--maxq", 3, "--maxlen", 7,
+                                                     "--stride", 2 if q else 1], **C),
+    ]
+    return run_plan(prop, tier, seed, t0, mcs, traces, "model_checking", COMMON_ASSUME,
+                    "as C04/C01/C02 with boolean variables (including variable 0) on spiders: soundness is DenV(post) = DenV(pre), i.e. "
+                    "equality of the denotation under EVERY assignment, instantiation done by the specification (Inst) from the logged "
+                    "vars and scalar factors; circuits with measure / measure-reset are compared with the projected map per outcome")
+
+
+def plan_C02(prop, tier, seed, t0):
+    q = tier == "quick"
+    mcs = [dict(name="tograph", module="MC_ToGraph.tla", cfg="MC_ToGraph_q.cfg" if q else "MC_ToGraph_t.cfg", timeout=1500 if q else 6000),
+           dict(name="ccz", module="MC_Circ.tla", cfg="MC_Circ_tr.cfg", timeout=1500)]
+    C = dict(module="Trace_Circ.tla", cfg="Trace_Circ.cfg")
+    traces = [
+        dict(name="enum", engine="tograph", args=["--enum", "2,2,all" if q else "2,3,small", "--enum", "3,1,ccz" if q else "3,2,ccz", "--enum", "1,3,small",
+                                                  "--stride", 3 if q else 1], **C),
+        dict(name="rand", engine="tograph", args=["--random", 250 if q else 4000, "--alphabet", "all", "--maxq", 3, "--maxlen", 8], **C),
+        dict(name="rand4", engine="tograph", args=["--random", 40 if q else 1000, "--alphabet", "unitary", "--maxq", 4, "--maxlen", 10], **C),
+    ]
+    return run_plan(prop, tier, seed, t0, mcs, traces, "model_checking", COMMON_ASSUME,
+                    "MC: the transcribed translation ToGraph vs the gate-matrix semantics CircSem for every circuit over the alphabet up to "
+                    "the length bound (every prefix is a state), all measurement outcomes; TRACE: one execution = one circuit translated "
+                    "by the real code in 3 modes x 2 backends; every translation of a non-empty circuit is non-trivial and decided by "
+                    "Den(diagram) = CircSem(circuit) in TLC")
+
+
+def plan_C15(prop, tier, seed, t0):
+    q = tier == "quick"
+    mcs = [dict(name="circ", module="MC_Circ.tla", cfg="MC_Circ_q.cfg" if q else "MC_Circ_t.cfg", timeout=1500 if q else 6000)]
+    C = dict(module="Trace_Circ.tla", cfg="Trace_Circ.cfg")
+    traces = [
+        dict(name="enum", engine="circops", args=["--enum", "2,2,unitary", "--enum", "3,1,unitary", "--stride", 2 if q else 1], **C),
+        dict(name="rand", engine="circops", args=["--random", 400 if q else 6000, "--alphabet", "unitary", "--maxq", 3, "--maxlen", 8], **C),
+        dict(name="rand4", engine="circops", args=["--random", 60 if q else 1500, "--alphabet", "unitary", "--maxq", 4, "--maxlen", 10], **C),
+    ]
+    return run_plan(prop, tier, seed, t0, mcs, traces, "model_checking", COMMON_ASSUME,
+                    "MC: adjoint inverts / expansion preserves / advertised count / concatenation composes for every circuit over the "
+                    "alphabet up to the bound on the specification; TRACE: one execution = one circuit on which to_adjoint, "
+                    "to_basic_gates, +, reverse, stats ran; each result is decided by exact CircSem equalities in TLC")
+
+
+def plan_C08(prop, tier, seed, t0):
+    q = tier == "quick"
+    mcs = [dict(name="sem", module="MC_Sem.tla", cfg="MC_Sem.cfg" if q else "MC_Sem_t.cfg", timeout=1500 if q else 5000)]
+    T = dict(module="Trace_Tensor.tla", cfg="Trace_Tensor.cfg")
+    traces = [
+        dict(name="fam", engine="tensor", args=["--fam", "k=2,tys=ZX,phs=01247,ets=NH,nb=2,bb=1", "--fam", "k=3,tys=ZX,phs=014,ets=NH,nb=1",
+                                                "--stride", 3 if q else 1, "--compare"], **T),
+        dict(name="rand", engine="tensor", args=["--random", 1500 if q else 30000, "--rand", "maxsp=7,maxb=4"], **T),
+        dict(name="circ", engine="tensor", args=["--enum", "2,2,small" if q else "2,3,small", "--enum", "3,1,x", "--random-circuits", 300 if q else 6000], **T),
+    ]
+    return run_plan(prop, tier, seed, t0, mcs, traces, "model_checking", COMMON_ASSUME,
+                    "MC: the specification's two independent evaluators (sum over assignments / vertex elimination) agree on every diagram of "
+                    "the family and are invariant under colour change; TRACE: one execution = one diagram or circuit evaluated by the "
+                    "library's to_tensor4/to_tensorf in both backends; TLC compares every entry with Den / CircSem; the comparison helpers "
+                    "are run on all ordered pairs of a pool of 0-, 1- and 2-index tensors; non-trivial = has at least one spider / gate")
+
+
+def plan_C11(prop, tier, seed, t0):
+    q = tier == "quick"
+    mcs = [dict(name="plug", module="MC_Plug.tla", cfg="MC_Plug_q.cfg" if q else "MC_Plug_t.cfg", timeout=2000 if q else 6000)]
+    T = dict(module="Trace_Compose.tla", cfg="Trace_Compose.cfg")
+    traces = [
+        dict(name="pairs", engine="compose", args=["--wires", "--fam", "k=1,tys=ZX,phs=014,ets=NH,nb=2,bb=1", "--fam", "k=2,tys=ZX,phs=01,ets=NH,nb=2",
+                                                   "--random", 200, "--rand", "maxsp=4,maxb=4", "--pairs", 1200 if q else 20000], **T),
+        dict(name="wires", engine="compose", args=["--wires", "--allpairs"], **T),
+    ]
+    return run_plan(prop, tier, seed, t0, mcs, traces, "model_checking", COMMON_ASSUME,
+                    "MC: all pairs of diagrams of the family (one spider each, <=2 boundaries attached by N/H wires, optional boundary-to-"
+                    "boundary wire) with matching arities: plug = composition, juxtaposition = tensor product, adjoint = dagger and involutive, "
+                    "plug_inputs/outputs = contraction with basis vectors for EVERY list over {Z0,Z1,X0,X1,SKIP} of every length <= #wires, "
+                    "is_identity = structural definition; TRACE: one execution = one pair on which all those calls ran in both backends; "
+                    "each result decided in TLC by Den(post) = the linear-algebra expression over Den(g), Den(h)")
+
+
+def plan_C12(prop, tier, seed, t0):
+    q = tier == "quick"
+    mcs = [dict(name="equal1", module="MC_Equal.tla", cfg="MC_Equal_q.cfg", timeout=2000),
+           dict(name="equal2", module="MC_Equal.tla", cfg="MC_Equal_2.cfg" if q else "MC_Equal_2t.cfg", timeout=2000 if q else 6000)]
+    T = dict(module="Trace_Eq.tla", cfg="Trace_Eq.cfg")
+    traces = [
+        dict(name="enum", engine="eqcheck", args=["--enum", "1,2,small_unitary", "--enum", "2,1,small_unitary", "--stride", 2 if q else 1], **T),
+        dict(name="rand", engine="eqcheck", args=["--random", 120 if q else 2500, "--alphabet", "unitary", "--maxq", 3, "--maxlen", 7], **T),
+    ]
+    return run_plan(prop, tier, seed, t0, mcs, traces, "model_checking", COMMON_ASSUME,
+                    "MC: the checker's algorithm (adjoint, plug, every firing order of full_simp, identity test, scalar test) on every pair of "
+                    "circuits over the alphabet: the composite denotes S1^dagger;S2 in every state and the answer at every quiescent state "
+                    "obeys Def; TRACE: one execution = one pair of circuits (independent, equal by construction: cancelling pairs, commuted "
+                    "gates, re-extraction; near misses: one gate changed, global phase -1 / e^{i pi/4}, Hadamards on wires, wire swap, other "
+                    "arity) on which all eight checker entry points ran; non-trivial = definite answers, each compared with CircSem ground truth")
+
+
+def plan_C03(prop, tier, seed, t0):
+    q = tier == "quick"
+    mcs = []
+    T = dict(module="Trace_Extract.tla", cfg="Trace_Extract.cfg")
+    cli = ["--quizx-bin", QUIZX_BIN, "--cli-every", 6 if q else 3]
+    traces = [
+        dict(name="enum", engine="extract", args=["--enum", "2,2,small_unitary", "--enum", "1,2,small_unitary", "--stride", 3 if q else 1] + cli, **T),
+        dict(name="rand", engine="extract", args=["--random", 150 if q else 3000, "--alphabet", "unitary", "--maxq", 3, "--maxlen", 9] + cli
+             + ([] if q else ["--thorough"]), **T),
+        dict(name="rand4", engine="extract", args=["--random", 40 if q else 800, "--alphabet", "unitary", "--maxq", 4, "--maxlen", 12] + cli, **T),
+    ]
+    return run_plan(prop, tier, seed, t0, mcs, traces, "translation_validation", COMMON_ASSUME,
+                    "one program = one source circuit pushed through to_graph -> {flow, clifford, full}_simp -> Extractor in modes "
+                    "{single-solution-set, simple-Gauss, up-to-permutation} (+ flow/no-Gauss), both backends, and through the built `quizx opt` "
+                    "binary (4 method flags, stdout and -o); every output circuit is validated by TLC: basic gates only, same qubits, "
+                    "ProjEq(CircSem(out), CircSem(in)) with a non-zero factor (for some input permutation in up-to-permutation mode)",
+                    extra_cov_fn=lambda st, groups: {"programs": groups, "disagreements_checked": st.get("extractions", 0) + st.get("cli", 0)})
+
+
+PLANS = {"C01": plan_C01, "C03": plan_C03, "C12": plan_C12, "C11": plan_C11, "C08": plan_C08, "C02": plan_C02, "C04": plan_C04, "C10": plan_C10, "C15": plan_C15}
 
 TECH = "explicit TLA+ specification; TLC exhaustive model checking of the spec + TLC trace validation of recorded executions of the real code"
 META = {
@@ -160,8 +320,69 @@ META = {
                      "rejected tuples are checked to be bit-for-bit no-ops, matcher verdicts are compared with the spec's (L1).",
                 note="bounded: <=3 spiders (+created vertices) exhaustively, <=6 spiders randomly; the denotation ZXSem is the trusted oracle"),
 }
+META["C01"] = dict(level="model_checking", engine="simp", design_ref="DESIGN.md section 3 C01", technique=TECH,
+    text="spec/Simp.tla models every simplifier as ANY-order iteration of the transcribed rules (a superset of the code's storage-order "
+         "dependent schedule) plus the batch steps fuse_gadgets / remove_gadget_pi; TLC exhausts Sound/NoPanic/StaysWF in every reachable "
+         "state and termination under fairness from every diagram of a bounded family; every pub simplifier of the real code is run on the "
+         "same family, on random diagrams and gadget-rich graph-like diagrams in both backends under a watchdog and TLC decides "
+         "Den(post)=Den(pre) on what the code produced.",
+    note="bounded (<=3 spiders exhaustive, <=6+gadgets random); exact phases k*pi/4 only (the floating-point clause for other phases is not covered); "
+         "termination on the real code is a 20 s watchdog")
+META["C10"] = dict(level="model_checking", engine="rules+simp+tograph", design_ref="DESIGN.md section 3 C10", technique=TECH,
+    text="Same machinery as C04/C01/C02 with boolean variables {0,1,2} on spiders: TLC checks DenV (denotation under every assignment) on the "
+         "spec exhaustively and on every recorded rule application / simplifier run / measurement-circuit translation of the real code.",
+    note="variables only on spiders without constant term (the property's quantifier); <=3 variables")
+META["C02"] = dict(level="model_checking", engine="tograph", design_ref="DESIGN.md section 3 C02", technique=TECH,
+    text="spec/ToGraph.tla transcribes Gate::add_to_graph case by case; TLC checks Den(ToGraph(c)) = CircSem(c) for every circuit over the full "
+         "gate alphabet up to the length bound, per measurement outcome; the real to_graph_with_options (plain / simplify / post-selected CCZ, "
+         "vec and hash) is validated circuit by circuit by TLC with the same two definitions, and compared name for name with the spec's graph (L1).",
+    note="<=2 qubits x <=3 gates exhaustive (3 qubits for CCZ/TOFF), <=4 qubits x <=10 gates random; exact phases only")
+META["C15"] = dict(level="model_checking", engine="circops", design_ref="DESIGN.md section 3 C15", technique=TECH,
+    text="spec/Circuit.tla defines Adjoint/ToBasic/NumBasic/Concat and the gate-matrix semantics; TLC exhausts the algebraic laws over all small "
+         "circuits (all argument orders of CCZ/TOFF, parity-phase arity 1..3) and validates every recorded result of the real "
+         "to_adjoint/to_basic_gates/+/reverse/stats with exact equalities.",
+    note="exact phases k*pi/4; the Clifford classification of XCX / parity-phase by stats() is accepted as conservative (DESIGN section 7)")
+META["C08"] = dict(level="model_checking", engine="tensor", design_ref="DESIGN.md section 3 C08", technique=TECH,
+    text="spec/ZXSem.tla is the reference interpretation (declarative sum over spider assignments, cross-checked by a second elimination "
+         "evaluator under TLC over an exhaustive family); every tensor the library computes for diagrams of the exhaustive family, random "
+         "diagrams (<=7 spiders, <=4 boundaries, scattered numbering) and circuits over all gates its evaluator supports is compared entry "
+         "by entry by TLC; == and scalar_eq are compared with the spec's TEq/ProjEq on all pairs of a tensor pool.",
+    note="to_tensorf is compared in the harness with the TLC-validated exact tensor at 1e-9 (floating point is outside TLA+)")
+META["C11"] = dict(level="model_checking", engine="compose", design_ref="DESIGN.md section 3 C11", technique=TECH,
+    text="spec/Compose.tla transcribes plug/append_graph/adjoint/plug_vertex/plug_inputs/plug_outputs/is_identity and states their meaning "
+         "with tensor algebra over the reference denotation; TLC exhausts all pairs of a small family including Hadamard boundary wires and "
+         "boundary-to-boundary wires, and validates every recorded call of the real code on random pairs, wire-only diagrams (cups, caps, "
+         "crossings) and families in both backends.",
+    note="bounded sizes; one recorded defect (plug with a cap in the plugged diagram) is listed in known_findings.json")
+META["C12"] = dict(level="model_checking", engine="eqcheck", design_ref="DESIGN.md section 3 C12", technique=TECH,
+    text="spec/Equality.tla states the contract Def and the checker's algorithm as the composition of the C11 and C01 actions; TLC explores it on "
+         "all pairs of small circuits under every simplification order; every answer of the eight real entry points on independent, "
+         "equal-by-construction and near-miss pairs is compared by TLC with the exact gate semantics.",
+    note="ground truth by exact CircSem (<=4 qubits); the float test arg(scalar)=0 is mirrored by the exact test 'positive real' (DESIGN section 3 C12)")
+META["C03"] = dict(level="translation_validation", engine="extract", design_ref="DESIGN.md section 3 C03", technique=
+    "translation validation: every (source circuit, extracted circuit) pair produced by the real pipeline and CLI is checked by TLC against the TLA+ gate semantics (spec/Circuit.tla)",
+    text="Every extraction the real code performs on enumerated and random circuits (all strategy x extractor-mode combinations, both backends, "
+         "and the CLI end to end) is validated per program by TLC with the specification's exact circuit semantics: equivalence up to a "
+         "non-zero scalar, basic gate set, same qubits, permutation witness in up-to-permutation mode; failure to extract, panics and "
+         "time-outs are violations.",
+    note="the extraction algorithm itself is not model-checked as a state machine in this round (no Extract.tla): the claim is per-program validation, "
+         "not exhaustive exploration of the extractor; CLI inputs exclude the pyzx-specific `pp` gate, which the QASM front end does not declare")
 NOT_APPLICABLE = {}
 ENGINES = [
+    {"name": "eqcheck", "path": "spec/Equality.tla mc/MC_Equal.tla mc/Trace_Eq.tla harness/src/eng_circ.rs",
+     "serves_properties": ["C12"], "kind_free_text": "TLC exhaustive checker algorithm + trace validation of answers"},
+    {"name": "extract", "path": "spec/Circuit.tla mc/Trace_Extract.tla harness/src/eng_circ.rs",
+     "serves_properties": ["C03"], "kind_free_text": "per-program validation of extraction results and CLI output by TLC"},
+    {"name": "compose", "path": "spec/Compose.tla mc/MC_Plug.tla mc/Trace_Compose.tla harness/src/eng_compose.rs",
+     "serves_properties": ["C11"], "kind_free_text": "TLC exhaustive pairs + trace validation of composition/plugging calls"},
+    {"name": "tensor", "path": "spec/ZXSem.tla mc/MC_Sem.tla mc/Trace_Tensor.tla harness/src/eng_tensor.rs",
+     "serves_properties": ["C08"], "kind_free_text": "two-evaluator self-check under TLC + trace validation of library tensors"},
+    {"name": "simp", "path": "spec/Simp.tla mc/MC_Simp.tla mc/Trace_Simp.tla harness/src/eng_simp.rs",
+     "serves_properties": ["C01", "C10"], "kind_free_text": "TLC exhaustive (any-order strategies, liveness) + trace validation of simplifier runs"},
+    {"name": "tograph", "path": "spec/Circuit.tla spec/ToGraph.tla mc/MC_ToGraph.tla mc/Trace_Circ.tla harness/src/eng_circ.rs",
+     "serves_properties": ["C02", "C10"], "kind_free_text": "TLC exhaustive translation vs gate semantics + trace validation"},
+    {"name": "circops", "path": "spec/Circuit.tla mc/MC_Circ.tla mc/Trace_Circ.tla harness/src/eng_circ.rs",
+     "serves_properties": ["C15"], "kind_free_text": "TLC exhaustive circuit algebra + trace validation"},
     {"name": "rules", "path": "spec/Rules.tla mc/MC_Rules.tla mc/Trace_Rules.tla harness/src/eng_rules.rs",
      "serves_properties": ["C04", "C10"], "kind_free_text": "TLC exhaustive + trace validation of rule applications"},
 ]
